@@ -355,7 +355,80 @@ class Gen:
             return cirq.If(raw, cirq.If(cond2, base))
         return cirq.If([raw, cond2], base)
 
+    def nested_subcircuit(self) -> Optional[cirq.Operation]:
+        """A sub-circuit that measures a key and contains another sub-circuit whose operations (and, in one
+        variant, the inner sub-circuit as a whole) are conditioned on that key: the condition must follow the
+        enclosing repetition's measurement through both levels of qubit maps, key maps and repetition ids."""
+        qs2 = self.qubits_only()
+        if len(qs2) < 2 or not self.allow_control:
+            return None
+        o0, o1 = self._pick_distinct(qs2, 2, "nest-q")
+        s0, s1, t0 = cirq.NamedQubit("s0"), cirq.NamedQubit("s1"), cirq.NamedQubit("t0")
+        # the enclosing sub-circuit's key: sometimes a name that the top level has measured as well (shadowing)
+        shadow = [kk for kk, dd in self.key_dims.items() if ":" not in kk and dd == (2,) and kk in ("a", "b", "c")]
+        lk = self._pick(shadow, "nest-key") if (shadow and self.t.chance(1, 2, "nest-shadow?")) else "u"
+        reps_o = 1 + self.t.draw(2, "nest-reps-outer")
+        ids_o = reps_o >= 2 and self.t.chance(2, 3, "nest-ids-outer?")
+        reps_i = 1 + self.t.draw(2, "nest-reps-inner")
+        controlled_whole = self.t.chance(1, 2, "nest-controlled-circuitop?")
+        ids_i = reps_i >= 2 and self.t.chance(1, 2, "nest-ids-inner?")
+        kmap_o = {lk: self._pick(["m", "n"], "nest-mapped")} if self.t.chance(1, 3, "nest-keymap-outer?") else {}
+        mk = cirq.MeasurementKey(lk)
+        cond = [cirq.KeyCondition(mk), cirq.KeyCondition(mk, index=0),
+                cirq.BitMaskKeyCondition(mk, index=-1, target_value=1, equal_target=False, bitmask=1),
+                cirq.SympyCondition(sympy.Eq(sympy.Symbol(lk), 0))][self.t.draw(4, "nest-cond")]
+        gate = (self._pick([cirq.X, cirq.Z, cirq.H], "nest-gate") if self.clifford_only
+                else self._pick([cirq.X, cirq.Y ** 0.5, cirq.H], "nest-gate"))
+        inner_ops = [gate.on(t0).with_classical_controls(cond)]
+        inner_meas = (not controlled_whole) and self.t.chance(1, 2, "nest-inner-measure?")
+        kmap_i = {}
+        if inner_meas:
+            inner_ops.append(cirq.measure(t0, key="v"))
+            if self.t.chance(1, 2, "nest-keymap-inner?"):
+                kmap_i = {"v": "w"}
+        inner = cirq.CircuitOperation(cirq.FrozenCircuit(inner_ops), repetitions=reps_i,
+                                      qubit_map={t0: [s0, s1][self.t.draw(2, "nest-inner-on")]},
+                                      measurement_key_map=kmap_i, use_repetition_ids=ids_i)
+        inner_op = inner.with_classical_controls(lk) if controlled_whole else inner
+        pre = (cirq.H if self.clifford_only else cirq.ry(math.pi / 8 * self._pick(EIGHTHS, "angle"))).on(s0)
+        body = [pre, cirq.measure(s0, key=lk), inner_op]
+        if self.t.chance(1, 2, "nest-tail?"):
+            body.append((cirq.H if self.clifford_only else cirq.ry(math.pi / 8 * self._pick(EIGHTHS, "angle"))).on(s1))
+        bits = reps_o * (1 + (reps_i if inner_meas else 0))
+        if self.leaf_bits + bits > self.cap:
+            return None
+        # names the records end up under, from the documented meaning of the maps, ids and nesting
+        planned = {}
+        for i in range(reps_o):
+            po = (str(i),) if ids_o else ()
+            name = ":".join(po + (kmap_o.get(lk, lk),))
+            planned[name] = planned.get(name, 0) + 1
+            if inner_meas:
+                for j in range(reps_i):
+                    pi = (str(j),) if ids_i else ()
+                    vn = kmap_i.get("v", "v")
+                    name = ":".join(po + pi + (kmap_o.get(vn, vn),))
+                    planned[name] = planned.get(name, 0) + 1
+        for name in planned:
+            if (name in self.key_dims and self.key_dims[name] != (2,)) or name in self.channel_keys:
+                return None
+        self.leaf_bits += bits
+        for name, cnt in planned.items():
+            if name in self.key_dims:
+                self.features.add("repeated-key")
+            self.key_dims[name] = (2,)
+            self.key_instances[name] = self.key_instances.get(name, 0) + cnt
+        self.features.update({"subcircuit", "nested-subcircuit", "classical-control"})
+        if controlled_whole:
+            self.features.add("controlled-circuit-operation")
+        if lk != "u":
+            self.features.add("nested-subcircuit-shadowing-key")
+        return cirq.CircuitOperation(cirq.FrozenCircuit(body), repetitions=reps_o, qubit_map={s0: o0, s1: o1},
+                                     measurement_key_map=kmap_o, use_repetition_ids=ids_o)
+
     def subcircuit(self) -> Optional[cirq.Operation]:
+        if self.allow_control and self.t.chance(1, 5, "nested?"):
+            return self.nested_subcircuit()
         """A CircuitOperation around a tiny sub-circuit (unitaries and measurements), with tape-drawn
         repetitions, qubit map, measurement-key map and repetition ids.  The keys it records under are
         computed here from the documented meaning of those arguments."""
